@@ -167,7 +167,7 @@ def run(opname, pid, case):
 
 def run_exact(op, pid, case):
     cname = op.case_name(case)
-    ctr = clib.contracts()
+    ctr = exact_contracts() if getattr(op, 'MODULAR_CALLEES', False) else clib.contracts()
     pre = f'{op.FN}/'
     res = []
 
@@ -179,10 +179,14 @@ def run_exact(op, pid, case):
         I.obls = [ob for ob in I.obls if ob.kind in ('aux', 'cover') or op.serves(ob.name, pid)]
         I.__dict__['_st'] = st
         return out
+    settled = {}      # obligation name -> 'refuted' | number of unknowns: no need to re-ask on every further path
+    returned = 0
     for I, out in vc.explore(body, contracts=ctr, max_paths=op.MAX_PATHS):
         if isinstance(out, vc.Outcome) and out.kind == 'unsupported':
             res.append(vc.unsupported_result(f'{pre}unsupported', cname, out.note))
             continue
+        if isinstance(out, vc.Outcome) and out.kind == 'return':
+            returned += 1
         st = I.__dict__.get('_st')
         if st is None:
             continue
@@ -190,12 +194,313 @@ def run_exact(op, pid, case):
 
         def replay(mv, ob, st=st):
             return op.replay(mv, st, case, None, ob.name)
-        rs = vc.discharge(I, pre, cname, op.TIMEOUT, inputs, replay, prefer=op.prefs(I, st, case, None))
+        only = {pre + ob.name for ob in I.obls
+                if settled.get(pre + ob.name) != 'refuted' and not (isinstance(settled.get(pre + ob.name), int)
+                                                                     and settled[pre + ob.name] >= 2)}
+        rs = vc.discharge(I, pre, cname, op.TIMEOUT, inputs, replay, prefer=op.prefs(I, st, case, None), only=only)
         for r in rs:
             if r['verdict'] == 'refuted':
                 r['independent'] = True
+                settled[r['name']] = 'refuted'
+            elif r['verdict'] == 'unknown' and settled.get(r['name']) != 'refuted':
+                settled[r['name']] = settled.get(r['name'], 0) + 1
         res += rs
     res = clib.dedupe(res)
+    if hasattr(op, 'must_accept') and returned == 0 and not any(r['verdict'] == 'unsupported' for r in res):
+        w = op.must_accept(case)
+        res.append({'name': f'{pre}raises[accept]', 'case': cname, 'kind': 'property', 'verdict': 'refuted', 'secs': 0.0,
+                    'independent': True, 'backend': 'path enumeration',
+                    'note': 'no input of this request class is ever accepted: every path raises', 'replays': w})
     if pid is not None:
         res = [dict(r, name=f'{pid}/' + r['name']) for r in res]
     return res
+
+
+# ================================================================================================ create_solution_from (C12)
+class CreateFromOp(clib.Op):
+    """Container.create_solution_from(source, solute, 'c num/den', solvent, 'q unit').
+    case = (solvent form, (num, den), quantity unit, source mixture)"""
+    FN = 'Container.create_solution_from'
+    PROPS_OF = {'total': ['C12'], 'conc': ['C12'], 'conservation': ['C12'], 'composition': ['C12'], 'refuse': ['C12', 'C03'],
+                'nonneg': ['C03', 'C12'], 'cap': ['C03'], 'vol': ['C10'], 'frame': ['C04'], 'fresh': ['C04'],
+                'safe': ['C03', 'C12']}
+    SOURCES = {'binary': ('solute', 'solvent'), 'binary-other': ('solute', 'other'), 'with-enzyme': ('solute', 'solvent', 'enzyme'),
+               'ternary': ('solute', 'solvent', 'other')}
+    TIMEOUT = 20000
+    MAX_PATHS = 1500
+    MODULAR_CALLEES = True
+
+    def cases(self, tier):
+        out = []
+        pairs = PAIRS if tier == 'thorough' else [('mol', 'L'), ('g', 'g'), ('g', 'L'), ('mol', 'mol')]
+        qunits = ['mL', 'g', 'mol'] if tier != 'thorough' else ['L', 'mL', 'g', 'mg', 'mol', 'mmol']
+        for pair in pairs:
+            for qu in qunits:
+                out.append(('substance', pair, qu, 'binary'))
+        for src in ('binary-other', 'with-enzyme', 'ternary'):
+            out.append(('substance', ('mol', 'L'), 'mL', src))
+            out.append(('substance', ('g', 'g'), 'g', src))
+        out.append(('container', ('mol', 'L'), 'mL', 'binary'))
+        out.append(('container-with-solute', ('mol', 'L'), 'mL', 'binary'))
+        return out
+
+    def setup(self, I, case, finite=None):
+        form, (nb, db), qu, srcmix = case
+        clib.assume_world(I)
+        terms = {n: z3.Const(n, Sub) for n in ('solute', 'solvent', 'other', 'enzyme')}
+        names = self.SOURCES[srcmix]
+        keys = [terms[n] for n in names]
+        assume_distinct(I, list(terms.values()))
+        I.assume(kind(terms['solute']) == 1)
+        I.assume(kind(terms['solvent']) == 2)
+        I.assume(kind(terms['other']) == 2)
+        I.assume(kind(terms['enzyme']) == 3)
+        S = clib.mk_container(I, 'S', 'inf', keys, [True] * len(keys))
+        for s in keys:
+            I.assume(S.amt[s] > 0)
+        Y = None
+        if form != 'substance':
+            ykeys = [terms['solvent']] + ([terms['solute']] if form == 'container-with-solute' else [])
+            Y = clib.mk_container(I, 'Y', 'inf', ykeys, [True] * len(ykeys))
+            for s in ykeys:
+                I.assume(Y.amt[s] > 0)
+        c, q = z3.Real('c'), z3.Real('q')
+        I.assume(c > 0)
+        allkeys = list(dict.fromkeys(keys + [terms['solvent']]))
+        return S, Y, terms, keys, allkeys, c, q
+
+    def invoke(self, I, st, case):
+        S, Y, terms, keys, allkeys, c, q = st
+        form, (nb, db), qu, srcmix = case
+        solvent = SubV(terms['solvent']) if Y is None else Y.obj
+        return vc.call(I, self.FN, [S.obj, SubV(terms['solute']), SegStr([NumHole(c), ' ', f'{nb}/{db}']), solvent,
+                                    SegStr([NumHole(q), ' ', qu]), NameV(z3.Const('newname', Name))])
+
+    def emit(self, I, out, st, case, finite=None):
+        S, Y, terms, keys, allkeys, c, q = st
+        form, (nb, db), qu, srcmix = case
+        solute, solvent = terms['solute'], terms['solvent']
+        fin = {'keys': allkeys}
+        p, qb = spec.split_unit(qu)
+        qbase = q * spec.num(spec.SI[p])
+        frame_ob(I)
+        if out.kind == 'return':
+            rs = out.value
+            src2, sol = rs[0], rs[-1]
+            y2 = rs[1] if len(rs) == 3 else None
+            I.oblige('fresh', bool(all(x.fresh for x in rs) and src2 is not S.obj), 'property')
+            sol_amt = {s: amt_of(sol, s)[0] for s in allkeys}
+            src_amt = {s: amt_of(src2, s)[0] for s in allkeys}
+            tol = z3.RealVal('1/1000000')
+            tot = clib.finite_measure(I, BASE_WS[qb], allkeys, sol_amt)
+            I.oblige('ensures[total]', z3.And(tot <= qbase * (1 + tol), tot >= qbase * (1 - tol)), 'property',
+                     note=f'total {qb} of the new solution equals the requested quantity')
+            n1, d1 = conc_of(I, sol_amt, allkeys, solute, nb, db)
+            I.oblige('ensures[conc]', z3.And(n1 <= c * d1 * (1 + tol), n1 >= c * d1 * (1 - tol)), 'property',
+                     note=f'concentration of the solute in {nb}/{db} equals the target')
+            # conservation: residuals + solution = inputs + added pure solvent
+            cons = []
+            for s in allkeys:
+                before = S.amt.get(s, z3.RealVal(0)) + (Y.amt.get(s, z3.RealVal(0)) if Y is not None else 0)
+                after = src_amt[s] + sol_amt[s] + (amt_of(y2, s)[0] if y2 is not None else 0)
+                if s.eq(solvent) and Y is None:
+                    cons.append(after >= before)        # pure solvent is added
+                else:
+                    cons.append(after == before)
+            I.oblige('ensures[conservation]', z3.And(*cons), 'property',
+                     note='residuals + solution = inputs (+ added pure solvent)')
+            # composition: the part taken from the source is a uniform aliquot of it
+            # uniform remainder, quantifier-free: cross-multiplied proportions and no increase
+            comp = z3.And(*[src_amt[a] * S.amt[b] == src_amt[b] * S.amt[a] for a, b in itertools.combinations(keys, 2)],
+                          *[z3.And(src_amt[a] >= 0, src_amt[a] <= S.amt[a]) for a in keys])
+            I.oblige('ensures[composition]', comp, 'property', note='the residual source is a uniform remainder of the source')
+            for obj_, nm in ((src2, 'source'), (sol, 'solution')):
+                for name, g in wf_clauses(I, obj_, fin, None).items():
+                    I.oblige(name.replace(']', f'/{nm}]'), g, 'property')
+        else:
+            ex = out.exc
+            if exc_is(ex.cls, 'ValueError') and (not ex.implicit or ex.cls == 'LinAlgError'):
+                I.oblige('raises[refuse]', True, 'aux')
+            else:
+                I.oblige(f'safe[{ex.cls}]', False, 'property', note=f'{ex.cls} at line {ex.lineno}')
+
+    def inputs(self, I, st, case, fin):
+        S, Y, terms, keys, allkeys, c, q = st
+        d = {'c': c, 'q': q}
+        d.update(clib.sub_inputs(allkeys))
+        for s in keys:
+            d[f'S_{s}'] = S.amt[s]
+        if Y is not None:
+            for s in Y.amt:
+                d[f'Y_{s}'] = Y.amt[s]
+        return d
+
+    def prefs(self, I, st, case, fin):
+        S, Y, terms, keys, allkeys, c, q = st
+        amts = [S.amt[s] for s in keys] + ([Y.amt[s] for s in Y.amt] if Y is not None else [])
+        return clib.nice_model_prefs(allkeys, amts, [c, q])
+
+    def replay(self, mv, st, case, fin, clause):
+        S, Y, terms, keys, allkeys, c, q = st
+        try:
+            inputs = {'subs': clib.model_subs(mv, allkeys),
+                      'S': {'contents': {str(s): str(mv[f'S_{s}']) for s in keys}, 'cap': None},
+                      'Y': None if Y is None else {'contents': {str(s): str(mv[f'Y_{s}']) for s in Y.amt}, 'cap': None},
+                      'c': str(mv['c']), 'q': str(mv['q']), 'cunit': f'{case[1][0]}/{case[1][1]}', 'qunit': case[2],
+                      'clause': clause}
+        except (KeyError, TypeError, ValueError):
+            return []
+        code = (clib.REPLAY_HEAD.replace('{inputs!r}', repr(json.dumps(inputs))) + clib.MK_CONTAINERS +
+                "def run():\n"
+                "    subs = {k: mk_sub(d, 'sub_' + k) for k, d in J['subs'].items()}\n"
+                "    S = mk_container(J['S'], subs, 'S')\n"
+                "    Y = mk_container(J['Y'], subs, 'Y') if J['Y'] else subs['solvent']\n"
+                "    from contracts.solution_oracle import judge_create_from\n"
+                "    return judge_create_from(S, subs['solute'], '%r %s' % (float(F(J['c'])), J['cunit']), Y, '%r %s' % (float(F(J['q'])), J['qunit']))\n")
+        return [{'inputs': inputs, 'code': code}]
+
+
+def _cf_must_accept(self, case):
+    form, (nb, db), qu, srcmix = case
+    if srcmix != 'binary' or form != 'substance':
+        return []
+    code = ("from pyplate import Substance, Container\n"
+            "from contracts.solution_oracle import judge_create_from\n"
+            "def run():\n"
+            "    w = Substance.liquid('water', 18.0153, 1); salt = Substance.solid('NaCl', 58.4428)\n"
+            "    stock = Container.create_solution(salt, w, concentration='1 M', total_quantity='100 mL')\n"
+            f"    half = '%r {nb}/{db}' % (0.5 * __import__('contracts.solution_oracle', fromlist=['conc']).conc(stock, salt, {nb!r}, {db!r}))\n"
+            f"    q = {{'L': '0.005 L', 'mL': '5 mL', 'g': '5 g', 'mg': '5000 mg', 'mol': '0.2 mol', 'mmol': '200 mmol'}}[{qu!r}]\n"
+            "    r = judge_create_from(stock, salt, half, w, q)\n"
+            "    if r['observed'] and str(r['observed']).startswith('ValueError'):\n"
+            "        r['ok'] = False; r['failed'] = ['a plainly feasible request is refused: ' + str(r['observed'])]\n"
+            "    return r\n")
+    return [{'inputs': {'scenario': f'half the concentration of a 1 M NaCl stock, {qu} quantity'}, 'code': code}]
+
+
+CreateFromOp.must_accept = _cf_must_accept
+OPS['create_from'] = CreateFromOp()
+
+
+# ================================================================================================ modular callee contracts
+# In the exact (explicit key set) runs of create_solution_from / create_solution the container operations underneath are
+# used through their verified contracts instead of being inlined: Container._transfer by its `uniform` / `refuse` /
+# `cap` / `vol` clauses (container_transfer.py, proved for contents of arbitrary size) and Container.__init__ by its
+# `contents` / `vol` / `refuse` clauses (container_ops.InitOp).  This removes the instruction-text forks and keeps the
+# terms small.
+def _parse_q(I, quantity):
+    if isinstance(quantity, SegStr) and len(quantity.parts) == 3 and isinstance(quantity.parts[0], NumHole) \
+            and quantity.parts[1] == ' ' and isinstance(quantity.parts[2], str):
+        return real(quantity.parts[0].value), quantity.parts[2]
+    if isinstance(quantity, SegStr) and len(quantity.parts) == 2 and isinstance(quantity.parts[0], NumHole) \
+            and isinstance(quantity.parts[1], str) and quantity.parts[1].startswith(' ') and ' ' not in quantity.parts[1][1:]:
+        return real(quantity.parts[0].value), quantity.parts[1][1:]
+    if isinstance(quantity, str):
+        v, u = quantity.split(' ')
+        from pyvc.strings import parse_float_text
+        return parse_float_text(v), u
+    raise Unsupported(f"quantity {quantity!r} for a modular container call")
+
+
+def _dict_amounts(c):
+    m = c.fields['contents']
+    if not isinstance(m, dict):
+        raise Unsupported("modular exact contract on a symbolic map")
+    return m
+
+
+def _vol_L(I, contents):
+    ms = clib.ms_of(I)
+    t = z3.RealVal(0)
+    for k, a in contents.items():
+        t = t + symcoll.weight('vol', k.term, ms) * real(a)
+    return t
+
+
+def _measure(I, contents, base):
+    ms = clib.ms_of(I)
+    t = z3.RealVal(0)
+    for k, a in contents.items():
+        t = t + symcoll.weight(BASE_WS[base], k.term, ms) * real(a)
+    return t
+
+
+def mod_transfer(I, args, kwargs, node):
+    dest, source, quantity = args
+    ln = getattr(node, 'lineno', None)
+    if not (isinstance(source, Obj) and source.cls.name == 'Container'):
+        raise Raised('TypeError', ln, 'Invalid source type.')
+    if source is dest:
+        raise Raised('ValueError', ln, 'self transfer')
+    q, unit = _parse_q(I, quantity)
+    p, b = spec.split_unit(unit)
+    qbase = real(q) * spec.num(spec.SI[p])
+    S, T = _dict_amounts(source), _dict_amounts(dest)
+    mS = _measure(I, S, b)
+    vs = spec.num(clib.vs_of(I))
+    if I.decide(z3.Or(qbase < 0, qbase > mS), 'transfer refused (negative / more than the source holds)'):
+        raise Raised('ValueError', ln, 'refused by Container._transfer contract')
+    if I.decide(mS == 0, 'empty source'):
+        r = z3.RealVal(0)
+    else:
+        r = qbase / mS
+    new_T = dict(T)
+    for k, a in S.items():
+        from pyvc.builtins_ import dict_find
+        kk = dict_find(I, new_T, k)
+        new_T[kk if kk is not None else k] = real(new_T[kk]) + r * real(a) if kk is not None else r * real(a)
+    new_S = {k: (1 - r) * real(a) for k, a in S.items()}
+    volT = _vol_L(I, new_T)
+    cap = dest.fields['max_volume']
+    if not (isinstance(cap, float)):
+        if I.decide(volT > real(cap) * vs, 'destination overflows'):
+            raise Raised('ValueError', ln, 'refused by Container._transfer contract (capacity)')
+    s2, t2 = I.new_obj('Container', tag=(source.tag or '') + "'"), I.new_obj('Container', tag=(dest.tag or '') + "'")
+    for o, like, cont, vol in ((s2, source, new_S, _vol_L(I, new_S)), (t2, dest, new_T, volT)):
+        o.fields.update(name=like.fields['name'], contents=cont, volume=vol / vs, max_volume=like.fields['max_volume'],
+                        instructions=SegStr([OpaqueHole('instructions')]), experimental_conditions={})
+    return (s2, t2)
+
+
+def mod_init(I, args, kwargs, node):
+    self = args[0]
+    ln = getattr(node, 'lineno', None)
+    name = args[1] if len(args) > 1 else kwargs.get('name')
+    maxv = args[2] if len(args) > 2 else kwargs.get('max_volume', 'inf L')
+    ic = args[3] if len(args) > 3 else kwargs.get('initial_contents')
+    vs, ms = spec.num(clib.vs_of(I)), spec.num(clib.ms_of(I))
+    if isinstance(maxv, str) and maxv == 'inf L':
+        cap = INF
+    else:
+        v, u = _parse_q(I, maxv)
+        p, b = spec.split_unit(u)
+        if I.decide(real(v) <= 0, 'non-positive capacity'):
+            raise Raised('ValueError', ln, 'Maximum volume must be positive.')
+        cap = real(v) * spec.num(spec.SI[p]) / vs
+    contents = {}
+    for entry in (ic or []):
+        sub, qty = entry
+        v, u = _parse_q(I, qty)
+        t = sub.term
+        Ssp = spec.SubSpec(kind(t), mw(t), dens(t), sa(t))
+        p, b = spec.split_unit(u)
+        if I.decide(real(v) < 0, 'negative initial quantity'):
+            raise Raised('ValueError', ln, 'Quantity must not be negative.')
+        add = z3.If(kind(t) == 3, spec.convert_spec(spec.SubSpec(3, mw(t), dens(t), sa(t)), real(v), u, 'U'),
+                    spec.convert_spec(spec.SubSpec(1, mw(t), dens(t), sa(t)), real(v), u, 'mol') / ms)
+        from pyvc.builtins_ import dict_find
+        kk = dict_find(I, contents, sub)
+        contents[kk if kk is not None else sub] = (real(contents[kk]) + add) if kk is not None else add
+        if not isinstance(cap, float):
+            if I.decide(_vol_L(I, contents) > cap * vs, 'initial contents overflow'):
+                raise Raised('ValueError', ln, 'Exceeded maximum volume')
+    self.fields.update(name=name, contents=contents, volume=_vol_L(I, contents) / vs, max_volume=cap,
+                       instructions=SegStr([OpaqueHole('instructions')]), experimental_conditions={})
+    return None
+
+
+def exact_contracts():
+    c = clib.contracts()
+    c['Container._transfer'] = mod_transfer
+    c['Container.__init__'] = mod_init
+    return c
